@@ -144,6 +144,12 @@ def e3(ctx):
             for r in errs:
                 n += 1
                 bad = []
+                # an error return no input can reach (`let Some(..) = seg.split_at(size) else { return Err(..) }` behind `size <= seg.size`) is no failure
+                import dnf as D
+                cond_r = D.block_dnf(ev, res, b, r["bb"])
+                if cond_r is not None and len(cond_r) == 0:
+                    yield Ob(key_of("C04-E3", b.path, "err-after-effect", n), True, "Err return at %s: its path condition is contradictory (unreachable)" % ctx.loc(r), ctx.loc(r))
+                    continue
                 for eff, e, top_bb in pts:
                     starts = []
                     if eff in ("cas", "slow-path-ok") and not e["chain"]:
